@@ -239,6 +239,14 @@ static Verdict run_case(const LCase &c) {
       pixman_region32_init_rects(&r, bx, 1 + m.a % 3);
       if (!pixman_image_set_clip_region32(x.im, m.a == 7 ? nullptr : &r)) v.fail(fmt("step %d: set_clip_region32 failed", step));
       pixman_region32_fini(&r);
+      if (m.other >= 3) {
+        // ... and through the 16-bit entry point, which converts into the image's region (replacing whatever it held)
+        pixman_box16_t b16[3] = {{0, 0, 2, 2}, {1, 2, 5, 4}, {0, 4, 2, 5}};
+        pixman_region16_t r16;
+        pixman_region_init_rects(&r16, b16, 1 + (m.a + m.other) % 3);
+        if (!pixman_image_set_clip_region(x.im, &r16)) v.fail(fmt("step %d: set_clip_region failed", step));
+        pixman_region_fini(&r16);
+      }
       break;
     }
     case L_TRANSFORM: {
